@@ -745,8 +745,32 @@ def r5_4(ctx):
                     continue  # the per-line rebuild from the index-sorted pair list is judged by _divide_order below
                 if isinstance(v, ast.ListComp):
                     it = v.generators[0].iter
-                    ok = len(v.generators) == 1 and isinstance(it, ast.Attribute) and it.attr == "_spans"
-                    ctx.check(ok, f.fq, short(x), where, "spans rebuilt by an in-order comprehension over the old list",
+                    from ..astutil import single_defs as _sdf54b
+                    sd54 = _sdf54b(f.node)
+
+                    def in_order(e, depth=0):
+                        """'yes': the old span list in its own order behind in-order maps / filters / copies; 'no': reordered; else 'unknown'"""
+                        if depth > 6:
+                            return "unknown"
+                        if isinstance(e, ast.Attribute) and e.attr == "_spans":
+                            return "yes"
+                        if isinstance(e, ast.Name) and e.id in sd54:
+                            return in_order(sd54[e.id], depth + 1)
+                        if isinstance(e, (ast.ListComp, ast.GeneratorExp)) and len(e.generators) == 1:
+                            return in_order(e.generators[0].iter, depth + 1)
+                        if isinstance(e, ast.Call) and norm(e.func) in ("list", "tuple", "iter") and len(e.args) == 1:
+                            return in_order(e.args[0], depth + 1)
+                        if isinstance(e, ast.Call) and norm(e.func) in ("sorted", "reversed") and e.args:
+                            return "no" if in_order(e.args[0], depth + 1) != "unknown" else "unknown"
+                        if isinstance(e, ast.Subscript) and isinstance(e.slice, ast.Slice):
+                            if e.slice.step is not None and norm(e.slice.step) != "1":
+                                return "no" if in_order(e.value, depth + 1) != "unknown" else "unknown"
+                            return in_order(e.value, depth + 1)
+                        return "unknown"
+                    verdict54 = in_order(it) if len(v.generators) == 1 else "unknown"
+                    if verdict54 == "unknown":
+                        raise AnalysisError(f"{f.fq}: spans are rebuilt from `{norm(it)}`; cannot tell whether that is the old span list in its own order")
+                    ctx.check(verdict54 == "yes", f.fq, short(x), where, "spans rebuilt by an in-order comprehension over the old list",
                               f"spans are rebuilt from `{norm(it)}`, which is not the old span list in its own order (reversed/sorted input changes which style wins)")
                 elif isinstance(v, ast.Attribute) and v.attr == "_spans":
                     ctx.ok(where, "spans copied in order from another Text", f.fq)
@@ -1212,6 +1236,11 @@ def r5_9(ctx):
             argv = list(x.args) + [k.value for k in x.keywords]
             if loop_var is None and any(comp is a or any(comp is n for n in ast.walk(a)) for a in argv):
                 ctor = x
+            if loop_var is None and ctor is None:
+                # the filter is held in a temporary:  covering = [...]; Text(.., spans=covering)
+                temps = {norm(st_.targets[0]) for st_ in walk_local(q.node) if isinstance(st_, ast.Assign) and len(st_.targets) == 1 and isinstance(st_.targets[0], ast.Name) and st_.value is comp}
+                if any(isinstance(a, ast.Name) and a.id in temps for a in argv):
+                    ctor = x
             if loop_var is not None and any(isinstance(a, ast.Name) and a.id == loop_var for a in argv):
                 ctor = x
     if ctor is None:
